@@ -24,7 +24,7 @@ IONAMES = {"i0": "d_input", "i1": "sel_output", "g": "reg_output", "h": "pre_inp
 
 
 def all_cases(ctx):
-    base = F.f_unit(4) + F.f_shape() + F.f_bb() + F.f_rand(ctx.seed, 30 if ctx.quick else 300)
+    base = F.f_unit(4) + F.f_shape() + F.f_bb() + F.f_rand(ctx.seed, 30 if ctx.quick else 300) + F.f_rand_bb(ctx.seed, 12 if ctx.quick else 100)
     cs = [(("sub",) + cid, ("spec", s)) for cid, s in base]
     cs += [(("sub", "ioname") + cid, ("spec", rename(s, lambda n: IONAMES.get(n, n)))) for cid, s in F.f_unit(3, pairs=False) + F.f_shape()[:6] + [c for c in F.f_unit(3) if c[0][0] == "pair"][:8]]
     BUFBOX = ["BUF", ["A"], ["Y"]]
